@@ -358,8 +358,8 @@ def rotation_matrix_from_to(from_vec, to_vec):
         elif np.array_equal(to_vec, -from_vec):
             angle = np.pi
         else:
-            angle = (np.sign(np.dot(from_rot, to_vec)) *
-                     np.arccos(np.dot(from_vec, to_vec)))
+            angle = np.arctan2(np.dot(from_rot, to_vec),
+                               np.dot(from_vec, to_vec))
         return np.array([[np.cos(angle), -np.sin(angle)],
                          [np.sin(angle), np.cos(angle)]])
 
@@ -378,7 +378,7 @@ def rotation_matrix_from_to(from_vec, to_vec):
             normal /= normal_norm
             binormal = np.cross(normal, from_vec)
             angle = (np.sign(np.dot(binormal, to_vec)) *
-                     np.arccos(np.dot(from_vec, to_vec)))
+                     np.arctan2(normal_norm, np.dot(from_vec, to_vec)))
             return axis_rotation_matrix(normal, angle)
 
     else:
